@@ -385,6 +385,9 @@ def run(ctx):
         oko = order == ['header_create', 'write_header', 'chunks_from_temp']
         ck.ob('C01-e', 'R2.order', zc.name, 'header-then-body', oko,
               'zck_close: %s' % ' -> '.join(order), zc.file, zc.line, config=config)
+        # ---- g  the descriptor write wrapper hands every byte over exactly once, also across short writes
+        from ..rules import contwrite
+        contwrite.check_write_continuation(ck, prog, config, 'C01-g')
         # ---- f
         c16.auto_bounds(ck, prog, config, 'C01-f')
         check_stale(ck, prog, config, 'C01-f', 'zck_write', ('dc_data_size',))
